@@ -679,11 +679,14 @@ pfn2idx_map_add(struct pfn2idx_map *map, struct pfn2idx_range *range,
 {
 	kdump_status status;
 
-	if (range->len > 0 && pfn == range->pfn + 1)
+	/* A run must not continue across the wrap-around of the PFN type:
+	 * the search compares the (unwrapped) bounds of each range.
+	 */
+	if (range->len > 0 && pfn == range->pfn + 1 && pfn != 0)
 		++range->len;
-	else if (range->len < 0 && pfn == range->pfn - 1)
+	else if (range->len < 0 && pfn == range->pfn - 1 && range->pfn != 0)
 		--range->len;
-	else if (range->len == 1 && pfn == range->pfn - 1)
+	else if (range->len == 1 && pfn == range->pfn - 1 && range->pfn != 0)
 		range->len = -2;
 	else {
 		status = pfn2idx_map_addrange(map, range);
